@@ -15,7 +15,8 @@ from gbasis.integrals.electron_repulsion import ElectronRepulsionIntegral, elect
 RULE = ("(i) all 256 quartets (l1..l4) in 0..3^4 enumerated at block level (ElectronRepulsionIntegral."
         "construct_array_contraction), exponents log-uniform 0.1-10 (0.2-5 with an f shell), K 1-3, M 1-2, geometry "
         "class coincident / collinear / general drawn by Hypothesis, 30 % of the quartets with ONE contraction spanning the exponent range on "
-        "all four shells; (i-b) heavy quartets: l 0-3, primitive counts 1-10 per shell "
+        "all four shells; (i-c) enumerated corners: every assignment of {diffuse, tight, diffuse+tight} exponent sets at the ends of the "
+        "range to the four shells for six l patterns (dddd, ffff, fdfd, ffdd, ddff, pffp) and two geometries (972 cases; the quick tier takes every fourth); (i-b) heavy quartets: l 0-3, primitive counts 1-10 per shell "
         "(uneven) chosen so that the recursion work space (L+1)^3 (L_ket+1)^3 K1K2K3K4 falls in drawn bands 2^18..2^25.4, at block level "
         "and through the public function on the two heaviest shells; (ii) whole-basis calls on 2-3 shells with every "
         "Cartesian/spherical assignment, both notations, with and without transformation; (iii) a fixed, keyed list of "
@@ -200,6 +201,45 @@ def shards_heavy(tier):
             for a, b in bands for i in range(2 if tier == "quick" else 4)]
 
 
+# ---- (i-c) enumerated corners of the exponent range ---------------------------------------------------------
+CORNER_LS = [(2, 2, 2, 2), (3, 3, 3, 3), (3, 2, 3, 2), (3, 3, 2, 2), (2, 2, 3, 3), (1, 3, 3, 1)]
+CORNER_GEO = {"two-atoms": ([0.0, 0.0, 0.0], [0.4, 1.1, 1.9], [0.0, 0.0, 0.0], [0.4, 1.1, 1.9]),
+              "four-centres": ([0.0, 0.0, 0.0], [1.3, -0.4, 0.8], [-0.7, 1.6, 0.3], [0.5, 0.9, -1.7])}
+
+
+def corner_cases(shard):
+    """Every assignment of {diffuse, tight, diffuse+tight contraction} exponent sets (ends of the stated random range: 0.1/10, or 0.2/5
+    with an f shell) to the four shells, for fixed l patterns and two geometries."""
+    ls = CORNER_LS[shard["pattern"]]
+    lo, hi = (0.2, 5.0) if max(ls) >= 3 else (0.1, 10.0)
+    kinds = {"d": ([lo], [[1.0]]), "t": ([hi], [[1.0]]), "w": ([hi, lo], [[0.6], [0.9]])}
+    n = 0
+    for combo in itertools.product("dtw", repeat=4):
+        for gname, geo in CORNER_GEO.items():
+            n += 1
+            if n % shard["of"] != shard["part"]:
+                continue
+            shells = [sh(l, c, kinds[k][0], kinds[k][1]) for l, c, k in zip(ls, geo, combo)]
+            yield {"shells": shells, "geo": "corner", "label": "corner %s %s %s" % ("".join(map(str, ls)), "".join(combo), gname)}
+
+
+def judge_corner(case):
+    v = Verdict(nontrivial=True, classes=["pattern-" + case["label"].split()[1], "kinds-" + "".join(sorted(set(case["label"].split()[2])))])
+    judge_block(v, case["shells"], label=case["label"].replace(" ", "_"))
+    return v
+
+
+def shards_corner(tier):
+    of = 4 if tier == "quick" else 1
+    parts = 6
+    out = []
+    for p in range(len(CORNER_LS)):
+        for q in range(parts):
+            # quick: every fourth case of each pattern; thorough: all 162
+            out.append({"id": f"p{p}-{q}", "pattern": p, "of": of * parts, "part": q, "cost": 400})
+    return out
+
+
 # ---- (ii) whole-basis calls -----------------------------------------------------------------
 @st.composite
 def whole_st(draw, lmax):
@@ -343,10 +383,12 @@ def shards_ill(tier):
 
 SUBCHECKS = [
     SubCheck("quartets", judge_quartet, shards_quartets, strategy=lambda s: quartet_st(s["ls"], s["kmax"])),
+    SubCheck("corners", judge_corner, shards_corner, cases=corner_cases),
     SubCheck("heavy", judge_heavy, shards_heavy, strategy=lambda s: heavy_st(s["lo"], s["hi"])),
     SubCheck("whole", judge_whole, shards_whole, strategy=lambda s: whole_st(s["lmax"])),
     SubCheck("illcond", judge_ill, shards_ill, cases=lambda s: ill_list()[s["lo"]:s["hi"]]),
 ]
-EXHAUSTIVE = {"quartets": "all 256 (l1,l2,l3,l4) in 0..3^4", "illcond": "fixed list of %d keyed quartets" % len(ill_list())}
+EXHAUSTIVE = {"quartets": "all 256 (l1,l2,l3,l4) in 0..3^4",
+              "corners": "3^4 exponent-set assignments x 6 l patterns x 2 geometries = 972 (quick tier: every fourth)", "illcond": "fixed list of %d keyed quartets" % len(ill_list())}
 
 EXPECTED_CLASSES = ["quartets/same-contraction", "heavy/uneven-K"]
